@@ -4,9 +4,10 @@
 (*                                                                         *)
 (* 1. Shapes.  The set of lookup-list shapes the language has syntax for   *)
 (*    (GSUB 1-6, GPOS 1-4; the flag subsets of {marks, ligs, base}; one    *)
-(*    subtable for GSUB 1-4, one to MaxSub subtables separated by "||" for *)
-(*    GSUB 5/6 and GPOS 1-4; glyph / class / coverage-set forms; backtrack *)
-(*    and lookahead of length 0-2; 0-2 nested actions; value records over  *)
+(*    subtable for GSUB 1-4, one to MaxSub (and 13, 20) subtables          *)
+(*    separated by "||" for GSUB 5/6 and GPOS 1-4; 13 to 40 entries under  *)
+(*    one key; glyph / class / coverage-set forms; backtrack and           *)
+(*    lookahead of length 0-2; 0-2 nested actions; value records over  *)
 (*    x, y, dx).  TLC enumerates the set (one behaviour per shape, Emit);  *)
 (*    the harness instantiates each shape with glyphs and numbers over a   *)
 (*    font variant, runs Explain -> Parse and records both lookup lists;   *)
@@ -90,6 +91,35 @@ Basic == {Sh("GSUB", 1, <<"run">>, 2, 0, 0, 0, 0), Sh("GSUB", 1, <<"run">>, 3, 0
           Sh("GPOS", 2, <<"pair">>, 2, 1, 6, 0, 0), Sh("GPOS", 2, <<"pairclass">>, 1, 6, 1, 1, 0),
           Sh("GPOS", 3, <<"curs">>, 2, 0, 0, 0, 0), Sh("GPOS", 4, <<"markbase">>, 2, 2, 1, 0, 0)}
 
+(* Size as a dimension.  The order of the ligatures of a first glyph, of the rules of a rule   *)
+(* set and of the subtables of a lookup is meaningful (the first match wins), so a description *)
+(* must preserve it for any number of entries -- also beyond the sizes at which sorting and     *)
+(* map-iteration shortcuts of an implementation happen to keep the order (e.g. 12).            *)
+Rep(n, pat) == [i \in 1..n |-> pat[((i - 1) % Len(pat)) + 1]]
+Big ==
+  {Sh("GSUB", 1, <<"run">>, a, 0, 0, 0, 0) : a \in {13, 40}}
+  \cup {Sh("GSUB", 1, <<"map">>, a, 0, 0, 0, 0) : a \in {13, 20}}
+  \cup {Sh("GSUB", 2, <<"mult">>, 13, 2, 0, 0, 0), Sh("GSUB", 2, <<"mult">>, 2, 13, 0, 0, 0)}
+  \cup {Sh("GSUB", 3, <<"alt">>, 13, 2, 0, 0, 0), Sh("GSUB", 3, <<"alt">>, 2, 13, 0, 0, 0),
+        Sh("GSUB", 3, <<"alt">>, 1, 20, 0, 0, 0)}
+  \cup {Sh("GSUB", 4, <<"lig">>, a, b, c, 0, 0) : a \in 1..3, b \in {13, 20, 40}, c \in 2..3}
+  \cup {Sh("GSUB", 4, <<"ligrun">>, 13, 0, 0, 0, 0)}
+  \cup {Sh("GSUB", 5, <<f>>, a, 2, 1, d, 0) : f \in {"ctx1", "ctx2"}, a \in {13, 20, 40}, d \in {0, 2}}
+  \cup {Sh("GSUB", 5, Rep(n, p), 2, 2, 1, 1, 0) :
+          n \in {13, 20}, p \in {<<"ctx1">>, <<"ctx2">>, <<"ctx3">>, <<"ctx1", "ctx2", "ctx3">>}}
+  \cup {Sh("GSUB", 6, <<f>>, a, 2, 1, 1, 1) : f \in {"cc1", "cc2"}, a \in {13, 20, 40}}
+  \cup {Sh("GSUB", 6, Rep(n, p), 2, 2, 1, 1, 1) :
+          n \in {13, 20}, p \in {<<"cc1">>, <<"cc2">>, <<"cc3">>, <<"cc3", "cc2", "cc1">>}}
+  \cup {Sh("GPOS", 1, <<f>>, a, 5, 0, 0, 0) : f \in {"pos1set", "pos1each"}, a \in {13, 20}}
+  \cup {Sh("GPOS", 1, Rep(13, p), 2, 3, 0, 0, 0) : p \in {<<"pos1set">>, <<"pos1each">>, <<"pos1set", "pos1each">>}}
+  \cup {Sh("GPOS", 2, <<"pair">>, a, 1, 6, 0, 0) : a \in {13, 40}}
+  \cup {Sh("GPOS", 2, <<"pairclass">>, 13, 1, 6, 13, 0)}
+  \cup {Sh("GPOS", 2, Rep(13, p), 2, 1, 6, 1, 0) : p \in {<<"pair">>, <<"pairclass">>, <<"pair", "pairclass">>}}
+  \cup {Sh("GPOS", 3, <<"curs">>, a, 0, 0, 0, 0) : a \in {13, 20}}
+  \cup {Sh("GPOS", 3, Rep(13, <<"curs">>), 2, 0, 0, 0, 0)}
+  \cup {Sh("GPOS", 4, <<"markbase">>, 13, 2, 13, 0, 0), Sh("GPOS", 4, Rep(13, <<"markbase">>), 2, 2, 1, 0, 0)}
+BigFonts == Fonts \cap {"nc", "x"}
+
 With(s, fl, lst, font) ==
   [tab |-> s.tab, typ |-> s.typ, forms |-> s.forms, a |-> s.a, b |-> s.b, c |-> s.c, d |-> s.d, e |-> s.e,
    flags |-> fl, lst |-> lst, font |-> font]
@@ -98,6 +128,7 @@ Shapes ==
   {With(s, {}, "single", f) : s \in {g \in Grid : WellFormed(g)}, f \in Fonts}
   \cup {With(s, fl, lst, f) : s \in {g \in Basic : WellFormed(g)}, fl \in AllFlags, lst \in {"single", "middle"},
                               f \in Fonts}
+  \cup {With(s, {}, "single", f) : s \in {g \in Big : WellFormed(g)}, f \in BigFonts}
 
 (* The same enumeration run also renders the hand-specified descriptions of DslLang.tla   *)
 (* (one behaviour per description: the record [mid, font, text]) and checks that the       *)
@@ -118,7 +149,7 @@ MeaningOK(i) == LET m == Meaning(Descs[i]) IN
 
 TypeOK == IF IsMeaning(shape) THEN MeaningOK(shape.mid)
           ELSE /\ shape.typ \in 1..6 /\ shape.tab \in {"GSUB", "GPOS"}
-               /\ Len(shape.forms) \in 1..MaxSub
+               /\ Len(shape.forms) \in (1..MaxSub) \cup {13, 20}
                /\ (shape.tab = "GSUB" /\ shape.typ <= 4) => Len(shape.forms) = 1   \* no "||" syntax for GSUB 1-4
                /\ shape.tab = "GPOS" => shape.typ <= 4
                /\ \A i \in 1..Len(shape.forms) : KindOf(shape.forms[i]) \in Kinds
